@@ -103,6 +103,98 @@ def rtf_shard(shard, nshards, tier):
     return {'counts': counts, 'viols': viols, 'samples': samples}
 
 
+def multi_shard(shard, nshards, tier):
+    """(e) unions whose operands select nodes of SEVERAL trees (main document, a document() tree, a result tree fragment): every ordered
+    pair and triple (thorough: quadruple) of 7 operands. The delivered list must contain every node once, keep the nodes of one tree
+    together (no interleaving) and in document order inside each tree."""
+    import itertools
+    import xpparse
+    thorough = tier == 'thorough'
+    El = R.E
+    dm = R.make_doc([El('r', None, [El('x', [('i', '1')]), El('z', [('i', '2')], [El('x')]), El('y'), El('z', None, ['t'])])], name='MAIN')
+    do = R.make_doc([El('r', None, [El('y', [('i', '1')]), El('x'), El('y', None, [El('z')]), El('w')])], name='OTHER')
+    dr = R.make_doc([El('q', None, [El('z'), 't', El('x', [('i', '9')]), El('z')])], name='RTF')
+    trees = {'m': (dm, ''), 'o': (do, "document('o.xml')"), 'f': (dr, 'xalan:nodeset($f)')}
+    OPS = [('m', '/r/x'), ('m', '/r/z'), ('m', '//x|/r/y'), ('o', '/r/y'), ('o', '//z|/r/w'), ('f', '/q/z'), ('f', '//@i|/q/x')]
+
+    def optext(t, pth):
+        pre = trees[t][1]
+        if not pre:
+            return pth
+        return '|'.join(pre + a for a in pth.split('|'))
+    combos = []
+    for n in (2, 3) + ((4,) if thorough else ()):
+        combos += list(itertools.permutations(range(len(OPS)), n))
+    if not thorough:
+        combos += [(a, b_, a) for a in range(len(OPS)) for b_ in range(len(OPS)) if a != b_]       # an operand that returns to a tree already seen
+    else:
+        combos += [(a, b_, a, c) for a in range(len(OPS)) for b_ in range(len(OPS)) for c in range(len(OPS)) if a != b_]
+    w = vlib.Worker('xdrv', stderr_path=os.path.join(vlib.BUILD, 'tmp', 'c12m.%d.err' % shard))
+    counts = {'multi_evaluations': 0, 'multi_nontrivial': 0}
+    viols = []
+    B = 60
+    batches = [combos[i:i + B] for i in range(0, len(combos), B)]
+    refsets = {}
+    for i, (t, pth) in enumerate(OPS):
+        d = trees[t][0]
+        v = X.evaluate(xpparse.parse_text(pth), X.Ctx(d.root))
+        refsets[i] = [(t, d.path(n)) for n in v]
+    order = {t: {d.path(n): k for k, n in enumerate(d.nodes)} for t, (d, _) in trees.items()}
+    for bi, batch in enumerate(batches):
+        if bi % nshards != shard:
+            continue
+        body = ''.join('<u i="%d"><xsl:for-each select="%s"><h t="{generate-id(/)}"><xsl:call-template name="path"/></h></xsl:for-each></u>'
+                       % (i, ' | '.join(optext(*OPS[k]) for k in combo).replace('&', '&amp;').replace('<', '&lt;').replace('"', '&quot;')) for i, combo in enumerate(batch))
+        xsl = ('<xsl:stylesheet version="1.0" xmlns:xsl="http://www.w3.org/1999/XSL/Transform" xmlns:xalan="http://xml.apache.org/xalan" exclude-result-prefixes="xalan">'
+               '<xsl:variable name="f"><xsl:copy-of select="document(\'f.xml\')/node()"/></xsl:variable><xsl:template match="/"><out m="{generate-id(/)}" o="{generate-id(document(\'o.xml\'))}" '
+               'f="{generate-id(xalan:nodeset($f))}">%s</out></xsl:template>%s</xsl:stylesheet>' % (body, c02.VARS_PATH_TEMPLATES))
+        try:
+            r = w.request('tr', xsl, dm.to_xml(), 'r:o.xml=' + do.to_xml(), 'r:f.xml=' + dr.to_xml())
+        except vlib.WorkerDied as wd:
+            viols.append(('multi|fatal|batch %d' % bi, {'stderr': wd.stderr_tail[-1200:]}))
+            continue
+        if r[0] != '0':
+            viols.append(('multi|transform-error|%s' % r[1][:80], {'error': r[1][:300]}))
+            continue
+        out = R.parse_xml(r[2])
+        ids = {a.value: a.local for a in out.docel.attrs}
+        for u in out.docel.children:
+            if u.kind != R.ELEM:
+                continue
+            i = int(u.attrs[0].value)
+            combo = batch[i]
+            got = [(ids.get(h.attrs[0].value, '?'), h.string_value().strip()) for h in u.children if h.kind == R.ELEM]
+            want = set()
+            for k in combo:
+                want |= set(refsets[k])
+            counts['multi_evaluations'] += 1
+            if len(set(t for t, _ in want)) > 1:
+                counts['multi_nontrivial'] += 1
+            text = ' | '.join(optext(*OPS[k]) for k in combo)
+            kind = None
+            if len(got) != len(set(got)):
+                kind = 'duplicates'
+            elif set(got) != want:
+                kind = 'different-set'
+            else:
+                seen = []
+                for t, _ in got:
+                    if not seen or seen[-1] != t:
+                        if t in seen:
+                            kind = 'documents-interleaved'
+                            break
+                        seen.append(t)
+                if kind is None:
+                    for t in set(t for t, _ in got):
+                        seq = [order[t][p_] for tt, p_ in got if tt == t]
+                        if seq != sorted(seq):
+                            kind = 'out-of-document-order'
+            if kind:
+                viols.append(('multi|%s|%s' % (kind, text), {'expr': text, 'got': got, 'expected_set': sorted(want)}))
+    w.close()
+    return {'counts': counts, 'viols': viols, 'samples': ['multi: %s' % ' | '.join(optext(*OPS[k]) for k in combos[len(combos) // 2])] if shard == 0 else []}
+
+
 def main():
     tier, replay = vlib.tier_from_argv()
     if replay:
@@ -119,6 +211,9 @@ def main():
     rres = vlib.run_sharded(rtf_shard, (tier,))
     rcounts = vlib.merge_counts([r['counts'] for r in rres])
     viols += [vlib.Violation(sig, det) for r in rres for sig, det in r['viols']]
+    mres = vlib.run_sharded(multi_shard, (tier,))
+    mcounts = vlib.merge_counts([r['counts'] for r in mres])
+    viols += [vlib.Violation(sig, det) for r in mres for sig, det in r['viols']]
     cov = {
         'states': counts.get('states', 0),
         'transitions': counts.get('transitions', 0),
@@ -129,8 +224,9 @@ def main():
         'expression_evaluations': ccounts.get('evaluations', 0),
         'expression_cases': ccounts.get('cases', 0),
         'rtf_evaluations': rcounts.get('rtf_evaluations', 0), 'rtf_cases': rcounts.get('rtf_cases', 0), 'rtf_transformations': rcounts.get('rtf_transformations', 0),
-        'evaluations': counts.get('evaluations', 0) + ccounts.get('evaluations', 0) + rcounts.get('rtf_evaluations', 0),
-        'distinct_nontrivial': counts.get('bfs_nontrivial_states', 0) + ccounts.get('nontrivial', 0) + rcounts.get('rtf_nontrivial', 0),
+        'multi_tree_union_evaluations': mcounts.get('multi_evaluations', 0),
+        'evaluations': counts.get('evaluations', 0) + ccounts.get('evaluations', 0) + rcounts.get('rtf_evaluations', 0) + mcounts.get('multi_evaluations', 0),
+        'distinct_nontrivial': counts.get('bfs_nontrivial_states', 0) + ccounts.get('nontrivial', 0) + rcounts.get('rtf_nontrivial', 0) + mcounts.get('multi_nontrivial', 0),
         'rule': '(b) breadth-first search over ALL histories of {addNodeInDocOrder(n) for 8 nodes of two documents, 5 bulk '
                 'addNodesInDocOrder with honest doc/reverse/unknown flags, clear} to depth 6 (quick) / 9 (thorough), states = (node '
                 'sequence, order flag) de-duplicated; the search saturates (max_depth reported). Invariant in every state: no duplicate, '
@@ -140,7 +236,9 @@ def main():
                 '(c) every node-set expression of the C02 families step1/step2/abbrev/filter/union x 5 documents x every context node: '
                 'the delivered list equals the reference list in order. (d) the expressions of step1/abbrev/union(/filter) with every node of a '
                 'RESULT TREE FRAGMENT as context (xalan:nodeset of a variable built by xsl:copy-of and by xsl:element/xsl:text/xsl:comment/PI '
-                'instructions from 3 / 5 documents, one with mixed content): delivered order == reference order. States that violate the '
+                'instructions from 3 / 5 documents, one with mixed content): delivered order == reference order. (e) every ordered pair and triple '
+                '(thorough: quadruple) of 7 union operands over three trees (main document, document() tree, result tree fragment), plus '
+                'unions that return to a tree already seen: no duplicates, trees not interleaved, document order inside each tree. States that violate the '
                 'invariant are reported and not expanded.',
         'exhaustive': counts.get('restart_cap_hit', 0) == 0,
     }
